@@ -84,6 +84,7 @@ def _make_body():
     d, r = _sat_shape()
     body += '  fprintf(stdout, "I SAT_DISARM_GUARDED %d\\n");\n' % d
     body += '  fprintf(stdout, "I SAT_RESET_GUARDED %d\\n");\n' % r
+    body += '  fprintf(stdout, "I CHAIN_WINDOW_US %d\\n");\n' % _chain_window_us()
     # (call id, payload size accepted by srpc_getdata) of the calls a device handles: only for the case generator (json)
     for cid, size in VALID_SIZES:
         body += '  fprintf(stdout, "L VALIDSIZES %%d %%d\\n", (int)(%s), (int)(%s));\n' % (cid, size)
@@ -127,6 +128,17 @@ def _sat_shape():
     inner = body[g.end():j]; outer = body[:g.start()] + body[j:]
     def only_inner(pat): return 1 if (len(re.findall(pat, inner)) == 1 and not re.findall(pat, outer)) else 0
     return (only_inner(r'os_timer_disarm\s*\(\s*&\s*input_cfg->timer\s*\)'), only_inner(r'input_cfg->click_counter\s*=\s*0\s*;'))
+
+def _chain_window_us():
+    """the literal of the ten-toggle chaining test in supla_esp_input_legacy_state_change_handling:
+    `system_get_time() - input_cfg->last_state_change >= A * B` -> A*B (microseconds); 0 when the test is not found in that form"""
+    src = open(os.path.join(G.REPO, 'src', 'user', 'supla_esp_input.c')).read()
+    src = re.sub(r'/\*.*?\*/', '', src, flags=re.S); src = re.sub(r'//[^\n]*', '', src)
+    m = re.search(r'supla_esp_input_legacy_state_change_handling\s*\([^)]*\)\s*\{', src)
+    if not m: return 0
+    body = src[m.end():]
+    g = re.search(r'\(\s*\(?\s*system_get_time\s*\(\s*\)\s*-\s*input_cfg->last_state_change\s*>=\s*(\d+)\s*\*\s*(\d+)\s*\)', body)
+    return int(g.group(1)) * int(g.group(2)) if g else 0
 
 class _LazyGroup(dict):
     """the call-site scan runs only when this group is actually generated"""
@@ -241,6 +253,6 @@ G.GROUPS['C12Consts'] = _LazyGroup(
         ('CFG_SECTOR_', 'CFG_SECTOR'),
         ('CFG_SIZE', 'sizeof(SuplaEspCfg)'),
     ] + [('FN_' + n, str(i)) for n, i in FID.items()],
-    extra_names=['CALLSITES', 'DISPATCH', 'SAT_DISARM_GUARDED', 'SAT_RESET_GUARDED'],
+    extra_names=['CALLSITES', 'DISPATCH', 'SAT_DISARM_GUARDED', 'SAT_RESET_GUARDED', 'CHAIN_WINDOW_US'],
     flags=['-DVERIF_RETREIVE_CHANNEL_CONFIG'],
 )
